@@ -41,6 +41,14 @@ M_AgreesWithRun == phase = "done" => (LET r == Run(P, compress) IN r.status = "o
 \* labels only ever move towards smaller offsets, pass after pass
 M_LabelsMonotone == [][phase' # phase /\ phase \notin {"build"} => \A t \in DOMAIN labels : labels'[t] <= labels[t]]_mvars
 \* compression never turns success into failure, never lengthens, never moves a label later (on the model)
+\* the two halves separately: C12's (success is kept) and C20's (nothing grows, no label moves later)
+M_CompressKeepsSuccess == (phase = "build" /\ WellFormed(P)) => (Run(P, FALSE).status = "ok" => Run(P, TRUE).status = "ok")
+M_CompressNeverLonger == (phase = "build" /\ WellFormed(P)) =>
+   LET a == Run(P, FALSE)  b == Run(P, TRUE) IN
+   (a.status = "ok" /\ b.status = "ok") =>
+       /\ \A i \in 1..Len(P) : P[i].k # "align" => b.sizes[i] <= a.sizes[i]
+       /\ Offsets(b.sizes)[Len(P) + 1] <= Offsets(a.sizes)[Len(P) + 1]
+       /\ \A t \in LabelSet(P) : b.labels[t] <= a.labels[t]
 M_CompressSafe == (phase = "build" /\ WellFormed(P)) =>
    LET a == Run(P, FALSE)  b == Run(P, TRUE) IN
    a.status = "ok" => /\ b.status = "ok"
